@@ -24,6 +24,15 @@ pub use self::fr::{Fr, FrRepr};
 pub(crate) use self::isogeny::IsogenyMap;
 pub(crate) use self::osswu_map::OSSWUMap;
 
+/// Verification hooks (compiled only with `--cfg pairing_plus_verif`): re-export of the
+/// crate-private map-to-curve building blocks so that a harness can call each stage alone.
+#[cfg(pairing_plus_verif)]
+pub mod verif {
+    pub use super::cofactor::ClearH;
+    pub use super::isogeny::IsogenyMap;
+    pub use super::osswu_map::OSSWUMap;
+}
+
 pub mod transmute {
     pub use super::ec::g1::transmute_affine as g1_affine;
     pub use super::ec::g1::transmute_projective as g1_projective;
